@@ -84,54 +84,54 @@ type commitRec struct {
 }
 
 type node struct {
-	w         *world
-	idx       int
-	key       crypto.PrivateKeyI
-	pub       []byte
-	addr      []byte
-	byz       bool
-	bft       *bft.BFT
-	ctl       *simController
-	committed map[uint64]*commitRec
-	height    uint64 // last committed height
-	root      uint64 // root height known to this node
-	mu        sync.Mutex
-	fired     bool
-	queue     []func()
-	stop      chan struct{}
-	lateUntil time.Duration
-	resets    int
-	log       *simkit.Logger
+	w          *world
+	idx        int
+	key        crypto.PrivateKeyI
+	pub        []byte
+	addr       []byte
+	byz        bool
+	bft        *bft.BFT
+	ctl        *simController
+	committed  map[uint64]*commitRec
+	height     uint64 // last committed height
+	root       uint64 // root height known to this node
+	mu         sync.Mutex
+	fired      bool
+	queue      []func()
+	stop       chan struct{}
+	lateUntil  time.Duration
+	resets     int
+	log        *simkit.Logger
 	roundStart map[uint64]time.Duration // current height: round -> instant the round's ELECTION phase ran
 	rsHeight   uint64
 }
 
 type world struct {
-	c        *simkit.Ctx
-	cfg      config
-	nodes    []*node
-	vals     *lib.ConsensusValidators
-	vs       lib.ValidatorSet
-	pubIdx   map[string]int
-	h        eventHeap
-	seq      uint64
-	start    time.Time
-	wake     chan struct{}
-	startH   uint64
-	rootBase uint64
-	global   uint64 // highest root height that exists
-	groups   []int  // partition group per node (all 0 = no partition)
-	held     []*event
-	adv      *adversary
-	truth    map[string]map[string]map[string]bool // pub -> view key -> payload hashes signed (replica votes)
-	blockSeq int
-	firstAt  map[uint64]*commitRec // first commit by a correct node per height
-	gstRound uint64
-	gstDone  bool
+	c         *simkit.Ctx
+	cfg       config
+	nodes     []*node
+	vals      *lib.ConsensusValidators
+	vs        lib.ValidatorSet
+	pubIdx    map[string]int
+	h         eventHeap
+	seq       uint64
+	start     time.Time
+	wake      chan struct{}
+	startH    uint64
+	rootBase  uint64
+	global    uint64 // highest root height that exists
+	groups    []int  // partition group per node (all 0 = no partition)
+	held      []*event
+	adv       *adversary
+	truth     map[string]map[string]map[string]bool // pub -> view key -> payload hashes signed (replica votes)
+	blockSeq  int
+	firstAt   map[uint64]*commitRec // first commit by a correct node per height
+	gstRound  uint64
+	gstDone   bool
 	gstHeight uint64
 	worstSkew time.Duration
 	exit      string
-	slashed  map[string]bool // address|height already slashed (root-chain double signer index)
+	slashed   map[string]bool // address|height already slashed (root-chain double signer index)
 }
 
 func (w *world) now() time.Duration { return time.Since(w.start) }
@@ -239,7 +239,7 @@ func newWorld(c *simkit.Ctx, cfg config) *world {
 		// deterministic BLS keys from the tape
 		kb := c.T.Bytes(32)
 		kb[0], kb[31] = kb[0]&0x3F, kb[31]&0x3F|1 // keep the scalar below the group order, non-zero
-		kb[15], kb[16] = byte(i+1), byte(0xA5^i)          // distinct keys even on an all-zero (shrunk) tape
+		kb[15], kb[16] = byte(i+1), byte(0xA5^i)  // distinct keys even on an all-zero (shrunk) tape
 		k, err := crypto.BytesToBLS12381PrivateKey(kb)
 		if err != nil {
 			c.Harnessf("bls key: %v", err)
